@@ -63,7 +63,7 @@ func checkConv(id, typ, tier, replay string) int {
 	rep.Rule = fmt.Sprintf("%d seeded pairs for %s: %s. The script printed by the real drc is executed request by request / command by command on the device model; "+
 		"the resulting state must be equivalent to the target (canonical form: references replaced by content, generated names ignored), a second compare of the dumped model must be empty, "+
 		"and 'device unchanged' is only accepted for an already equivalent device. Non-trivial = the tool reported a change; distinct = distinct input text. "+
-		"A command the model refuses under the five rules of C08 ends the run like a real approve would and counts as not converged.", n, typ, convRules[typ])
+		"A command the model refuses under the five rules of C08 ends the run like a real approve would and counts as not converged. NSX: every 8th pair is run as a complete live approve (real list requests, paging and prefix filter of the tool) against the HTTPS simulator backed by the model.", n, typ, convRules[typ])
 	rep.Assumptions = []string{
 		"device semantics are those of the reference model written from the API/CLI documentation; every alarm is reproduced against the real code before it is classified",
 	}
@@ -85,7 +85,14 @@ func checkConv(id, typ, tier, replay string) int {
 	env.Parallel(len(seeds), func(i int) {
 		g := genPair(typ, seeds[i])
 		o := runConv(env, g, false)
-		rep.Case(run.Hash(g.Device, fmt.Sprint(g.Files)), o.Nontrivial)
+		live := ""
+		if typ == "nsx" && i%8 == 3 && replay == "" {
+			// Same pair as a complete live session against the model.
+			o = runConvLiveNSX(env, g)
+			live = "live:"
+			rep.Count("live_sessions", 1)
+		}
+		rep.Case(run.Hash(live, g.Device, fmt.Sprint(g.Files)), o.Nontrivial)
 		if o.Inconclusive != "" {
 			rep.Inconclusive(o.Inconclusive)
 			return
@@ -109,7 +116,7 @@ func checkConv(id, typ, tier, replay string) int {
 			o.Conv = &clause{"not-converged:command-rejected:" + rule + head, o.Exec.What}
 		}
 		if o.Conv != nil {
-			key := typ + ":" + o.Conv.Name
+			key := typ + ":" + live + o.Conv.Name
 			key = convFindingKey(typ, key, g, o)
 			rep.Violation(key, o.Conv.What+fmt.Sprintf(" [seed=%d edits=%v]", g.Seed, g.Edits), func(dir string) {
 				writeConvReplay(dir, g, o)
